@@ -42,6 +42,7 @@ MENU = [
     obj("2.0", 14, "retfault"),                          # 2.0 call whose method returns a Fault object
     obj("2.0", 15, "f", [{"__jsonclass__": ["mc.ref.beans.Plain", []], "a": 2}, {"__jsonclass__": ["decimal.Decimal", ["1.5"]]}]),  # translated beans
     obj(ABSENT, 16, "f", [{"__jsonclass__": ["NoSuchLocalClass", []]}]),  # bare class name (rejected unless a class table knows it)
+    obj("2.0", 17, "mutate", [[1], {"k": [2]}, {"__jsonclass__": ["mc.ref.beans.Plain", []], "items": [3]}]),  # the callee modifies the containers it receives
 ]
 TEXTS = [m if isinstance(m, str) else B.dumps(m) for m in MENU]
 
@@ -280,7 +281,7 @@ def content(cfg):
 
 def copy_cases(tier):
     n = len(MUTATIONS)
-    for start in ("default", "populated", "v1"):
+    for start in ("default", "populated", "v1", "falsy", "custom-names"):
         for side in ("mutate-copy", "mutate-original"):
             for k in (1, 2):
                 for seq in itertools.product(range(n), repeat=k):
@@ -294,6 +295,12 @@ def check_copy(case):
         orig = Config()
     elif start == "v1":
         orig = Config(version=1.0, use_jsonclass=False, user_agent="x")
+    elif start == "falsy":
+        # every option set, after construction, to a value that is falsy or zero-like
+        orig = Config()
+        orig.version, orig.content_type, orig.user_agent, orig.use_jsonclass, orig.serialize_method, orig.ignore_attribute = 0, "", "", 0, "", ""
+    elif start == "custom-names":
+        orig = Config(version=2, content_type="a/b", user_agent="ua", use_jsonclass=True, serialize_method="toJson", ignore_attribute="skipThese")
     else:
         orig = Config(serialize_handlers={K1: h1})
         orig.classes.add(K1)
@@ -419,7 +426,7 @@ META = {
     "and 1.0 batches, invalid objects of both versions, unparsable text, methods returning a Fault object, requests carrying translated beans) x 6 server configurations (2.0, 1.0, translation off, inline notification pool, "
     "shared DEFAULT config); unconvertible-results: methods returning a cyclic, a 100000-deep, a tuple-keyed result or a bean whose serialisation method raises, alone and in a "
     "batch, 1.0 and 2.0 form, server 1.0/2.0, translation on/off; long-history: each menu request after 130 repetitions of each menu request, after 1100 (thorough up to 70000) repetitions of 4 of them, "
-    "after 40 cycles through the menu and after large batches / large requests, on 3 configurations (the N-th reply equals a fresh dispatcher's); config-copy: every sequence of <=2 mutations from a 16-mutation menu on the copy and on the original from 3 start states; "
+    "after 40 cycles through the menu and after large batches / large requests, on 3 configurations (the N-th reply equals a fresh dispatcher's); config-copy: every sequence of <=2 mutations from a 16-mutation menu on the copy and on the original from 5 start states (default, populated tables, 1.0 with options off, every option falsy, every option customised); "
     "concurrent: 8 request pairs (thorough + 2 triples) x 3 configurations, every schedule up to the completed preemption level at line granularity of "
     "SimpleJSONRPCServer.py, jsonrpc.py, config.py; non-trivial = history of length >= 2 / mutation applied / execution with a choice point",
     "bounds": {"quick": {"history_depth": 3, "mutation_depth": 2, "conc_levels": "K ladder 0..3 while predicted <= 3000"},
